@@ -1105,3 +1105,79 @@ func VH_C10_cluster2_follower_restart() {
 	vAssert(step >= 4, "script-completed")
 	vReach("end")
 }
+
+//verif:check C10,C02,C04,C06 sched=coop maxsteps=2500000 onunwind=violation stubs=rt,timers,valuefile,abslog,snapfs,restart onblock=violation reach=crashed,kept-tail,lost-tail,new-leader,rejoined,closed,end desc="three real nodes end to end through a crash and restart of a cut-off leader: the isolated leader has accepted a client update it could not commit (stored but not flushed); its process dies; the node restarts on the same directory through the real raft.New/openStorage with any surviving prefix of its log that includes everything flushed (the uncommitted entry may or may not have survived); meanwhile the majority side elected a leader; after the repair the restarted node is caught up. Everything committed before the crash is in the reopened log, the restarted node's term is not older, the uncommitted entry is gone in the end, logs and commit indexes converge, and the restarted node's new state machine holds exactly the committed commands" bounds="3 voters, logs of 3 entries + no-op + 1 uncommitted entry on the old leader; every allowed surviving prefix; one election timeout; round-robin goroutine schedule"
+func VH_C10_cluster3_leader_restart() {
+	cfgE := vClusterConfig().encode()
+	cfgE.index, cfgE.term = 1, 1
+	e2 := &entry{index: 2, term: 1, typ: entryUpdate, data: vBytes("payload2", 1)}
+	e3 := &entry{index: 3, term: 2, typ: entryUpdate, data: vBytes("payload3", 1)}
+	c := vNewCluster()
+	for id := uint64(1); id <= 3; id++ {
+		r := c.add(id, []*entry{cfgE, e2, e3}, 3, 1, 2)
+		r.quorumWait = time.Hour
+	}
+	L, N := c.nodes[1], c.nodes[2]
+	L.state, L.leader = Leader, 1
+	vDiskInitAt(vDir, ".id", 7, 1)
+	c.wire()
+	c.start(2) // node 2's loop runs on the main goroutine; node 1 is the one that dies
+	lost := &newEntry{task: newTask(), entry: &entry{typ: entryUpdate, data: vBytes("lost.cmd", 1)}}
+	var R *Raft
+	var rfsm *vFSM
+	step := 0
+	vSetIdleHook(func() {
+		switch step {
+		case 0:
+			vAssert(L.state == Leader && L.commitIndex == 4 && N.commitIndex == 4 && c.nodes[3].commitIndex == 4, "Z-settled")
+			c.isolate(1)
+			vOffer(L.newEntryCh, lost)
+		case 1:
+			vAssert(L.lastLogIndex == 5 && L.commitIndex == 4 && c.logs[1].flushed >= 4, "Z-uncommitted-entry-stored-committed-prefix-flushed")
+			// the isolated leader's process dies and is started again
+			vCrashedLogs[vDir+"/log"] = c.logs[1]
+			vReach("crashed")
+			rfsm = &vFSM{}
+			opt := DefaultOptions()
+			opt.Logger = nil
+			r2, err := New(opt, rfsm, vDir)
+			vAssert(err == nil && r2 != nil, "Z-restart-opens")
+			if err != nil {
+				vStop()
+			}
+			R = r2
+			R.quorumWait = time.Hour
+			vAssert(R.term >= 3 && R.cid == 7 && R.nid == 1, "Z-term-not-older-identity-kept")
+			vAssert(R.lastLogIndex >= 4 && vLogsEqual(c.logs[2], vAbs(R.log), 4), "Z-committed-entries-survive-the-crash")
+			if R.lastLogIndex == 5 {
+				vReach("kept-tail")
+			} else {
+				vReach("lost-tail")
+			}
+			vAssert(R.state == Follower && R.commitIndex == 0, "Z-restarts-as-follower")
+			c.nodes[1], c.logs[1] = R, vAbs(R.log)
+			c.srv[1], c.dial[1] = vServe(R)
+			go R.fsm.runLoop()
+			go R.stateLoop()
+			// the majority side times out
+			vAssert(vFire(N.timer), "Z-follower-election-timer-armed")
+		case 2:
+			vAssert(N.state == Leader && N.term == 4 && N.commitIndex == 5, "Z-majority-side-elects-and-commits")
+			vReach("new-leader")
+			c.heal(1)
+			vAssert(vFire(N.ldr.repls[1].timer), "Z-replication-to-the-dead-node-is-backing-off")
+		case 3:
+			vReach("rejoined")
+			vAssert(R.state == Follower && R.term == 4 && R.leader == 2, "Z-restarted-node-follows-the-new-leader")
+			vAssert(R.lastLogIndex == N.lastLogIndex && vLogsEqual(c.logs[2], c.logs[1], N.lastLogIndex), "Z-uncommitted-entry-gone-logs-equal")
+			vAssert(R.commitIndex == N.commitIndex, "Z-commit-indexes-converge")
+			vAssert(len(rfsm.updates) == 2 && bytes.Equal(rfsm.updates[0], e2.data) && bytes.Equal(rfsm.updates[1], e3.data), "Z-new-state-machine-holds-exactly-the-committed-commands")
+			c.closeAll()
+		}
+		step++
+	})
+	N.stateLoop()
+	vReach("closed")
+	vAssert(step >= 4, "script-completed")
+	vReach("end")
+}
